@@ -43,10 +43,22 @@ class World:
         for f in funcs: self.inline.add(_unwrap(f))
     def allow_native(self, *funcs):
         for f in funcs: self.native_ok.add(f)
-    def loop(self, fi_key, ordinal, spec: LoopSpec):
+    def loop(self, fi_key, ordinal, spec: LoopSpec, shape=None):
+        """a loop contract, addressed by function and loop ordinal; `shape(fi, loop_stmt)` lets the same contract follow the loop when a
+        maintenance edit moves it into a helper function or changes its ordinal (the contract speaks about locals by name)"""
         self.loops[(fi_key, ordinal)] = spec
-    def loop_spec(self, fi, ordinal):
-        return self.loops.get((fi.key, ordinal))
+        if shape is not None and getattr(spec, 'canon', None) is None:
+            try: spec.canon = f"{fi_key.split(':', 1)[1]}.loop{ordinal}"
+            except Exception: pass
+        if shape is not None: self.loop_shapes = getattr(self, 'loop_shapes', []) + [(shape, spec)]
+    def loop_spec(self, fi, ordinal, st=None):
+        sp = self.loops.get((fi.key, ordinal))
+        if sp is None and st is not None:
+            for shape, spec in getattr(self, 'loop_shapes', []):
+                try:
+                    if shape(fi, st): return spec
+                except Exception: pass
+        return sp
     def transparent_cm(self, cm):
         return any(p(cm) for p in self.transparent)
 
